@@ -252,6 +252,25 @@ func checkC09(c *Ctx) {
 				okFresh = false
 			}
 		}
+		// a helper that adds a participant does so on every path (no early exit that records nothing
+		// in the ready group): both set-up and the rebuild from a saved state go through it
+		seenHelper := map[*ssa.Function]bool{}
+		for _, a := range adds {
+			h := a.Call.Parent()
+			if h == setup || seenHelper[h] {
+				continue
+			}
+			seenHelper[h] = true
+			okAll := true
+			for _, b := range h.Blocks {
+				if r, isR := b.Instrs[len(b.Instrs)-1].(*ssa.Return); isR {
+					if !passesOneOf(r, []ssa.Instruction{a.Call}) {
+						okAll = false
+					}
+				}
+			}
+			c.Check(okAll, "R1", "add-helper-always-adds:"+fnName(h), p.Pos(h.Pos()), "every path through the helper adds to the ready group", "the helper that registers a participant can return without adding him to the ready group: the gate then waits for (or forgets) somebody the state shows as registered")
+		}
 		c.Check(okFresh, "R1", "setup:state-forgets-previous-participants", p.Pos(setup.Pos()), "state.Participants ← fresh empty map after Stop, before every Add", "Setup does not start from an empty participant map: ids of an earlier set-up stay known to the gate and can signal the new one")
 		c.Check(nUpd >= 1, "R1", "setup:state-records-participants", p.Pos(setup.Pos()), "participants recorded in the state", "Setup records no participant in the gate's state")
 	}
